@@ -182,21 +182,24 @@ pub const LENIENT: &[&str] = &[
     "?\\^a", "?\\^Z", "?\\d", "?\\e", "?\\s", "?\\N{U+41}", "?\\u0041", "?\\U00000041", "?\\101", "?\\x41", "? ", "?\"", "?λ", "\"\\e\\d\\s\"", "\"\\^a\"", "\"\\101\"", "\"\\x41\"", "\"\\x41\\ b\"", "\"\\u00e9\\x41\"", "\"a\\\nb\"", "\"\\400\"", "\"\\x100\"", "\"\\q\"",
     "\"\\xe9;\"", "\"\\x80;\\xff;\"", "\"caf\\xe9;\"", "#\\xe9", "#\\x80", "?\\xe9", "\"\\351\"",
     "0.0000001", "+1e-7", "#d5e-9", "0.00000123", "1e-7", "1.0e-7", "+1e21", "#d1e21",
+    ".|b", ".|", ".'b", ".`b", ".,b", ".,@b", "..'", "+'a", "-`a", "a'", "a,", ".a'b", "...'", "-.'a", "+.,a", "1'x", "-'a", ".#a", ".[", ".;c",
     "-0", "+0", "-0.0", "00012", "1.50", "1.0e0", "1E3", "#e1", "#x-0", "#b-101", "#o777", "#d0012", "#xABCDEF", "18446744073709551616", "-9223372036854775809", "1e-400", "0.1e1",
 ];
 
 fn lenient_text(rng: &mut Rng) -> Vec<u8> {
     let n = rng.range(1, 4);
-    let wrap = rng.below(5);
+    let wrap = rng.below(6);
     let mut s = String::new();
     match wrap {
         0 => {}
         1 => s.push('('),
         2 => s.push_str("#("),
         3 => s.push('['),
-        _ => s.push_str("(a . "),
+        4 => s.push_str("(a . "),
+        _ => s.push_str(*rng.pick::<&str>(&["'", "`", ",", ",@", "''", "(a '", "#(`"])),
     }
-    let n = if wrap == 0 || wrap == 4 { 1 } else { n };
+    let closer = if s.ends_with("(a '") { ")" } else if s.ends_with("#(`") { ")" } else { "" };
+    let n = if wrap == 0 || wrap >= 4 { 1 } else { n };
     for i in 0..n {
         if i > 0 {
             s.push(' ');
@@ -206,6 +209,7 @@ fn lenient_text(rng: &mut Rng) -> Vec<u8> {
     match wrap {
         0 => {}
         3 => s.push(']'),
+        5 => s.push_str(closer),
         _ => s.push(')'),
     }
     s.into_bytes()
@@ -282,6 +286,13 @@ pub fn sets(ctx: &Ctx) -> Vec<CaseSet> {
                 let pa = mirror_alt(&q);
                 check(rep, format!("#(x {})", tok).as_bytes(), &q, &pa, "lenient-last-in-vector", nofast);
                 check(rep, format!("[x {}]", tok).as_bytes(), &q, &pa, "lenient-last-in-brackets", nofast);
+                // under a quotation shorthand and as a dotted tail: the two places where
+                // the printer moves the token into a different context (long form of the
+                // shorthand: second list element; tail: after " . ")
+                let sh = ["'", "`", ",", ",@"][qi % 4];
+                check(rep, format!("{}{}", sh, tok).as_bytes(), &q, &p, "lenient-under-shorthand", nofast);
+                check(rep, format!("(x . {})", tok).as_bytes(), &q, &p, "lenient-dotted-tail", nofast);
+                check(rep, format!("(x {}{})", sh, tok).as_bytes(), &q, &pa, "lenient-under-shorthand-in-list", nofast);
             }
         }),
     ));
